@@ -325,6 +325,57 @@ def paired_chunk(ctx, config, rows, g, tot):
     tot["distinct_byte_offsets_of_a_b_result"] = [len(x) for x in seen]
 
 
+def history_runs(ctx, facts, config):
+    """Earlier calls: the SAME documented safe calls (xany and xconst::<D> for several D, every routine) issued in ONE
+    process in three different orders - as generated (D ascending), reversed (D descending), and a seeded shuffle.  Every
+    call must print the same line whatever preceded it; a crash of the process in one order only is a difference too."""
+    from checks import saferun
+    if not saferun.hook_ready(ctx):
+        return
+    ok, log = harness_build.build_cfh(config)
+    if not ok:
+        ctx.broke("correspondence", "C08 history runs: build (%s)" % config, log[-1500:])
+        return
+    entries = list(enumerate(facts.get("safe_entries", [])))
+    lens = [0, 3, 17, 65] if ctx.tier != "thorough" else [0, 1, 3, 8, 17, 33, 65, 130]
+    cases, meta = saferun.gen_safe_cases(ctx, facts, config, entries, lens, [(0, 0, 0, 0)], [0], seed_tag=88)
+    n = len(cases)
+    g = lib.SplitMix(ctx.seed * 7907 + 88)
+    shuffled = list(range(n))
+    for i in range(n - 1, 0, -1):
+        j = g.below(i + 1)
+        shuffled[i], shuffled[j] = shuffled[j], shuffled[i]
+    orders = {"generated": list(range(n)), "reversed": list(range(n - 1, -1, -1)), "shuffled": shuffled}
+    outs = {}
+    for oname, order in orders.items():
+        res = runner.impl("safe", [cases[i] for i in order], config=config, nshards=1)
+        outs[oname] = {i: r for i, r in zip(order, res)}
+    bad = {}
+    for i in range(n):
+        lines = {o: outs[o][i] for o in orders}
+        if len(set(lines.values())) > 1:
+            sidx, s, form, nn, delta, mask = meta[i]
+            name = s["const"] if form == "c" else s["any"]
+            bad[name] = bad.get(name, 0) + 1
+            if bad[name] > 1 or len(bad) > 4:
+                continue
+            o1, o2 = sorted(orders, key=lambda o: lines[o] or "")[0], sorted(orders, key=lambda o: lines[o] or "")[-1]
+            pre = lambda o: [cases[j][:300] for j in orders[o][:orders[o].index(i) + 1]][-40:]
+            ctx.violation("history:%s" % name,
+                          "safe routine %s (n=%d, %s build) returns %s after one sequence of earlier calls and %s after another: the "
+                          "result depends on earlier calls" % (name, nn, config, (lines[o1] or "<crashed>")[:80], (lines[o2] or "<crashed>")[:80]),
+                          {"kind": "history", "build": config, "case": "safe " + cases[i][:3000],
+                           "order_" + o1: {"observed": lines[o1], "last_calls_before_and_including": pre(o1)},
+                           "order_" + o2: {"observed": lines[o2], "last_calls_before_and_including": pre(o2)},
+                           "replay": "feed the listed lines, in order, to `cfh safe` (one process)"})
+    ctx.cover(3 * n, distinct_keys=["hist|%s|%d" % (config, i) for i in range(n)],
+              samples=[{"case": cases[n // 2][:200], "outputs": {o: outs[o][n // 2] for o in orders}}] if n else [],
+              rule="history: every documented safe call (190 routines x {xany, xconst::<D>}, D in %s, %s build) issued in one process in "
+                   "three orders (generated, reversed, seeded shuffle); the printed line of each call must not depend on the order" % (lens, config),
+              dist={"history_calls_" + config: 3 * n})
+    ctx.extra.setdefault("history_runs", {})[config] = {"calls_per_order": n, "orders": list(orders), "routines_differing": len(bad)}
+
+
 def exprun_idx(line):
     return int(line.split(" ", 1)[0])
 
@@ -353,3 +404,6 @@ def run(ctx):
     symrun.run(ctx)
     for config in ("stable", "nightly"):
         paired_runs(ctx, facts, config)
+    facts2 = ctx.translate(steps=("tables", "dispatch"))
+    for config in ("stable", "nightly"):
+        history_runs(ctx, facts2, config)
